@@ -1260,7 +1260,11 @@ class UnitQuaternion(Quaternion):
 
         :seealso: :func:`~spatialmath.quaternion.UnitQuaternion.RPY`, :func:`~spatialmath.pose3d.SE3.eul`, :func:`~spatialmath.pose3d.SE3.Eul`, :func:`~spatialmath.base.transforms3d.eul2r`
         """
-        return cls(base.r2q(base.eul2r(angles, unit=unit)), check=False)
+        if base.isvector(angles, 3):
+            return cls(base.r2q(base.eul2r(angles, unit=unit)), check=False)
+        else:
+            # N x 3 array: one quaternion per row, as SO3.Eul
+            return cls([base.r2q(base.eul2r(a, unit=unit)) for a in angles], check=False)
 
     @classmethod
     def RPY(cls, angles, *, order='zyx', unit='rad'):
@@ -1298,7 +1302,11 @@ class UnitQuaternion(Quaternion):
 
         :seealso: :func:`~spatialmath.quaternion.UnitQuaternion.Eul`, :func:`~spatialmath.pose3d.SE3.rpy`, :func:`~spatialmath.pose3d.SE3.RPY`, :func:`~spatialmath.base.transforms3d.rpy2r`
         """
-        return cls(base.r2q(base.rpy2r(angles, unit=unit, order=order)), check=False)
+        if base.isvector(angles, 3):
+            return cls(base.r2q(base.rpy2r(angles, unit=unit, order=order)), check=False)
+        else:
+            # N x 3 array: one quaternion per row, as SO3.RPY
+            return cls([base.r2q(base.rpy2r(a, unit=unit, order=order)) for a in angles], check=False)
 
     @classmethod
     def OA(cls, o, a):
